@@ -597,7 +597,7 @@ func TestC20(t *testing.T) {
 	}
 
 	// (2) localfs (dev, ino) mapping.
-	nPairs := env.PerShard(env.Pick(4000, 400000))
+	nPairs := env.PerShard(env.Pick(40000, 2000000))
 	rapidCases(h, "devino", nPairs, genDevinoCase, func(c devinoCase) *fail {
 		f := runDevinoCase(c)
 		for _, p := range c.Pairs {
